@@ -58,6 +58,21 @@ def gen_latch(seed):
             el = fr.elaborate(st)
         except Exception:  # noqa: BLE001
             continue
+        # known finding S29 (latch form): a set / reset that folds to a constant is never wired to the latch.
+        # decided on samples: a set / reset that takes one truth value on 96 boundary and random valuations is
+        # treated as constant and the program is not generated
+        mm = next(iter(el.mems.values()))
+        free = [d[1] for d in el.flat if d[0] == "in" and not d[1].startswith("_")]
+        pool = sorted(set(S.BOUNDARY) | set(S.thresholds(el.flat)))
+        rr = random.Random(seed)
+        envs = [{n_: rr.choice(pool) for n_ in free} for _ in range(64)] + \
+               [{n_: rr.randint(-(1 << 31), (1 << 31) - 1) for n_ in free} for _ in range(32)]
+        try:
+            degenerate = any(len({fa.ev(mm[key], _vals(el.flat, env)) > 0 for env in envs}) == 1 for key in ("set", "reset"))
+        except Exception:  # noqa: BLE001
+            degenerate = True
+        if degenerate:
+            continue
         if program_safe(el.flat) and s14_free(el.flat):
             return st, el
     return st, el
@@ -272,5 +287,4 @@ def json_desc(it):
 
 
 def replay(path):
-    print(open(path).read()[:4000])
-    return 0
+    return c01.replay(path)
